@@ -30,7 +30,7 @@ AddReserved(U, c, p, tag) ==
     LET V == Materialise(U) IN
     [V EXCEPT !.ents = [V.ents EXCEPT ![c] = [@ EXCEPT !.parent = p, !.tag = tag],
                                       ![p] = [@ EXCEPT !.children = Append(@, c)]]]
-Add(U, p, tag) == AddReserved(Reserve(U), U.reserved + 1, p, tag)
+AddNew(U, p, tag) == AddReserved(Reserve(U), U.reserved + 1, p, tag)
 
 RECURSIVE SetIn(_, _, _)
 SetIn(attrs, name, val) ==
@@ -74,8 +74,29 @@ Flat(fs, be) == IF fs = <<>> THEN <<>>
 Range(s) == {s[i] : i \in DOMAIN s}
 Fits(v, n) == \A i \in DOMAIN v : i > n => v[i] = 0
 Nat8(n) == FromNat(n, 8)
-ULebLen(v) == Len(EncU(v))
-SLebLen(v) == Len(EncS(v))
+(* LEB128 of a 64-bit value, digit by digit (equal to Leb!EncU / EncS, which is *)
+(* checked by MCUnitWriter on the probe values; this form has no nested         *)
+(* recursion and evaluates quickly)                                             *)
+BitAt(v, i) == IF i > 8 * Len(v) THEN 0 ELSE Bit(v, i)
+UDig(v, j) == LET b == 7 * (j - 1) IN
+    BitAt(v, b + 1) + 2 * BitAt(v, b + 2) + 4 * BitAt(v, b + 3) + 8 * BitAt(v, b + 4)
+    + 16 * BitAt(v, b + 5) + 32 * BitAt(v, b + 6) + 64 * BitAt(v, b + 7)
+ULebLen(v) == LET S == {j \in 1..10 : UDig(v, j) # 0} IN
+              IF S = {} THEN 1 ELSE CHOOSE j \in S : \A k \in S : k <= j
+ULeb(v) == LET n == ULebLen(v) IN [j \in 1..n |-> UDig(v, j) + (IF j < n THEN 128 ELSE 0)]
+(* the same for a natural number below 2^31 (abbreviation codes, lengths) *)
+RECURSIVE ULebNat(_)
+ULebNat(n) == IF n < 128 THEN <<n>> ELSE <<(n % 128) + 128>> \o ULebNat(n \div 128)
+SBitAt(v, i) == IF i > 8 * Len(v) THEN (IF IsNeg(v) THEN 1 ELSE 0) ELSE Bit(v, i)
+SDig(v, j) == LET b == 7 * (j - 1) IN
+    SBitAt(v, b + 1) + 2 * SBitAt(v, b + 2) + 4 * SBitAt(v, b + 3) + 8 * SBitAt(v, b + 4)
+    + 16 * SBitAt(v, b + 5) + 32 * SBitAt(v, b + 6) + 64 * SBitAt(v, b + 7)
+SLebLen(v) == LET fill == IF IsNeg(v) THEN 127 ELSE 0
+                  ok(n) == /\ \A j \in (n + 1)..10 : SDig(v, j) = fill
+                           /\ (SDig(v, n) >= 64) = IsNeg(v)
+                  S == {n \in 1..10 : ok(n)}
+              IN CHOOSE n \in S : \A k \in S : n <= k
+SLeb(v) == LET n == SLebLen(v) IN [j \in 1..n |-> SDig(v, j) + (IF j < n THEN 128 ELSE 0)]
 WordOk(n) == n \in {1, 2, 4, 8}
 ErrF(e) == [err |-> e]
 OkF(fs) == [err |-> "", fs |-> fs]
@@ -118,13 +139,13 @@ Form(val, enc) ==
 Size(val, enc) ==
     LET k == val.k IN
     CASE k = "Address" -> enc.asz
-      [] k = "Block" -> ULebLen(Nat8(Len(val.b))) + Len(val.b)
+      [] k = "Block" -> Len(ULebNat(Len(val.b))) + Len(val.b)
       [] k = "Data1" -> 1 [] k = "Data2" -> 2 [] k = "Data4" -> 4 [] k = "Data8" -> 8 [] k = "Data16" -> 16
       [] k = "Sdata" -> SLebLen(val.v)
       [] k = "ImplicitConst" -> IF enc.version >= 5 THEN 0 ELSE SLebLen(val.v)
       [] k \in ConstKinds \cup {"Udata"} -> ULebLen(val.v)
       [] k = "FileIndex" -> 1
-      [] k = "Exprloc" -> ULebLen(Nat8(Len(val.b))) + Len(val.b)
+      [] k = "Exprloc" -> Len(ULebNat(Len(val.b))) + Len(val.b)
       [] k = "Flag" -> 1
       [] k = "FlagPresent" -> IF enc.version >= 4 THEN 0 ELSE 1
       [] k = "UnitRef" -> enc.word
@@ -138,15 +159,15 @@ Size(val, enc) ==
 Emit(val, enc, cx) ==
     LET k == val.k IN
     CASE k = "Address" -> UData(val.v, enc.asz)
-      [] k = "Block" -> OkF(FRaw(EncU(Nat8(Len(val.b)))) \o FRaw(val.b))
+      [] k = "Block" -> OkF(FRaw(ULebNat(Len(val.b))) \o FRaw(val.b))
       [] k = "Data1" -> OkF(FInt(val.v, 1)) [] k = "Data2" -> OkF(FInt(val.v, 2))
       [] k = "Data4" -> OkF(FInt(val.v, 4)) [] k = "Data8" -> OkF(FInt(val.v, 8))
       [] k = "Data16" -> OkF(FInt(val.v, 16))
-      [] k = "Sdata" -> OkF(FRaw(EncS(val.v)))
-      [] k = "ImplicitConst" -> IF enc.version >= 5 THEN OkF(<<>>) ELSE OkF(FRaw(EncS(val.v)))
-      [] k \in ConstKinds \cup {"Udata"} -> OkF(FRaw(EncU(val.v)))
+      [] k = "Sdata" -> OkF(FRaw(SLeb(val.v)))
+      [] k = "ImplicitConst" -> IF enc.version >= 5 THEN OkF(<<>>) ELSE OkF(FRaw(SLeb(val.v)))
+      [] k \in ConstKinds \cup {"Udata"} -> OkF(FRaw(ULeb(val.v)))
       [] k = "FileIndex" -> OkF(FRaw(<<0>>))
-      [] k = "Exprloc" -> OkF(FRaw(EncU(Nat8(Len(val.b)))) \o FRaw(val.b))
+      [] k = "Exprloc" -> OkF(FRaw(ULebNat(Len(val.b))) \o FRaw(val.b))
       [] k = "Flag" -> OkF(FInt(Nat8(IF val.v THEN 1 ELSE 0), 1))
       [] k = "FlagPresent" -> IF enc.version >= 4 THEN OkF(<<>>) ELSE OkF(FInt(Nat8(1), 1))
       [] k = "UnitRef" ->          \* placeholder write_udata(0, word), patched after the unit
@@ -214,7 +235,7 @@ HasSibling(ent) == ent.sibling /\ ent.children # <<>>
 (* DebuggingInformationEntry::abbreviation *)
 Abbrev(ent, enc) ==
     [tag |-> ent.tag, children |-> ent.children # <<>>,
-     attrs |-> (IF HasSibling(ent) THEN <<[name |-> "DW_AT_sibling", form |-> IF enc.word = 4 THEN "DW_FORM_ref4" ELSE "DW_FORM_ref8",
+     attrs |-> (IF HasSibling(ent) THEN <<[name |-> "DW_AT_sibling", form |-> (IF enc.word = 4 THEN "DW_FORM_ref4" ELSE "DW_FORM_ref8"),
                                            ic |-> <<>>]>> ELSE <<>>)
                \o [i \in 1..Len(ent.attrs) |->
                      [name |-> ent.attrs[i].name, form |-> Form(ent.attrs[i].val, enc),
@@ -235,7 +256,7 @@ LayEntry(U, e, d, st) ==
         found == IndexOf(st.tab, a, 1)
         tab1 == IF found = 0 THEN Append(st.tab, a) ELSE st.tab
         code == IF found = 0 THEN Len(tab1) ELSE found
-        size == ULebLen(Nat8(code)) + (IF HasSibling(ent) THEN U.enc.word ELSE 0) + SumSizes(ent.attrs, U.enc)
+        size == Len(ULebNat(code)) + (IF HasSibling(ent) THEN U.enc.word ELSE 0) + SumSizes(ent.attrs, U.enc)
         st1 == [st EXCEPT !.offs[e] = st.off, !.tab = tab1, !.codes[e] = code, !.off = @ + size,
                           !.order = Append(@, e), !.depth[e] = d]
         st2 == LayKids(U, ent.children, d + 1, st1)
@@ -262,7 +283,7 @@ RECURSIVE EmitEntry(_, _, _, _)
 RECURSIVE EmitKids(_, _, _, _)
 EmitEntry(U, e, L, cx) ==
     LET ent == U.ents[e]
-        hd == FRaw(EncU(Nat8(L.codes[e]))) \o (IF HasSibling(ent) THEN FInt(Nat8(L.after[e]), U.enc.word) ELSE <<>>)
+        hd == FRaw(ULebNat(L.codes[e])) \o (IF HasSibling(ent) THEN FInt(Nat8(L.after[e]), U.enc.word) ELSE <<>>)
         at == EmitAttrs(ent.attrs, U.enc, cx)
     IN IF at.err # "" THEN at
        ELSE IF ent.children = <<>> THEN OkF(hd \o at.fs)
@@ -287,8 +308,8 @@ EmitHeader(U, first, len) ==
 -----------------------------------------------------------------------------
 (* Part 4: Dwarf::write over all units (D = [units, strs, lstrs]).            *)
 RECURSIVE UnitStarts(_, _, _)
-UnitStarts(units, i, acc) == IF i > Len(units) THEN <<>>
-                             ELSE <<acc>> \o UnitStarts(units, i + 1, acc + UnitLen(units[i]))
+UnitStarts(Ls, i, acc) == IF i > Len(Ls) THEN <<>>
+                          ELSE <<acc>> \o UnitStarts(Ls, i + 1, acc + Ls[i].off)
 
 (* references an entry can hold *)
 RefOk(D, Ls, u, val) ==
@@ -299,10 +320,30 @@ RefOk(D, Ls, u, val) ==
 RefBeyond(D, u, val) ==
     LET tu == IF val.k = "UnitRef" THEN u ELSE val.u IN val.e > Len(D.units[tu].ents)
 
+(* expected read-back of one entry / one unit *)
+ExpEntry(U, L, pos, u, e) ==
+    LET ent == U.ents[e]
+        sibform == IF U.enc.word = 4 THEN "DW_FORM_ref4" ELSE "DW_FORM_ref8"
+        sib == IF HasSibling(ent) THEN << <<"DW_AT_sibling", sibform, [sib |-> L.after[e]]>> >> ELSE <<>>
+    IN [off |-> L.offs[e], depth |-> L.depth[e], tag |-> ent.tag, children |-> ent.children # <<>>,
+        after |-> L.after[e],
+        attrs |-> sib \o [j \in 1..Len(ent.attrs) |->
+                            <<ent.attrs[j].name, Form(ent.attrs[j].val, U.enc),
+                              Meaning(ent.attrs[j].val, U.enc, pos, u)>>]]
+ExpUnit(U, L, pos, u, start) ==
+    [off |-> start, version |-> U.enc.version, format |-> U.enc.word, asz |-> U.enc.asz, len |-> L.off,
+     entries |-> [i \in 1..Len(L.order) |-> ExpEntry(U, L, pos, u, L.order[i])]]
+RECURSIVE AllBytes(_, _, _, _, _)
+AllBytes(D, Ls, body, be, u) ==
+    IF u > Len(D.units) THEN <<>>
+    ELSE Flat(EmitHeader(D.units[u], u = 1, Ls[u].off) \o body[u].fs, be) \o AllBytes(D, Ls, body, be, u + 1)
+RECURSIVE CatStrings(_, _)
+CatStrings(tab, i) == IF i > Len(tab) THEN <<>> ELSE tab[i] \o <<0>> \o CatStrings(tab, i + 1)
+
 WriteResult(D, be) ==
     LET nu == Len(D.units)
         Ls == [u \in 1..nu |-> Layout(D.units[u])]
-        starts == UnitStarts(D.units, 1, 0)
+        starts == UnitStarts(Ls, 1, 0)
         strtab == Distinct(D.strs, <<>>)
         lstrtab == Distinct(D.lstrs, <<>>)
         pos == [u \in 1..nu |-> [e \in 1..Len(D.units[u].ents) |->
@@ -322,27 +363,9 @@ WriteResult(D, be) ==
                     ELSE ""
     IN IF firstErr # "" THEN [ok |-> FALSE, err |-> firstErr]
        ELSE [ok |-> TRUE,
-             units |-> [u \in 1..nu |->
-                 LET U == Reordered(D.units[u])  L == Ls[u] IN
-                 [off |-> starts[u], version |-> U.enc.version, format |-> U.enc.word, asz |-> U.enc.asz,
-                  len |-> L.off,
-                  entries |-> [i \in 1..Len(L.order) |->
-                      LET e == L.order[i]  ent == U.ents[e] IN
-                      [off |-> L.offs[e], depth |-> L.depth[e], tag |-> ent.tag, children |-> ent.children # <<>>,
-                       after |-> L.after[e],
-                       attrs |-> (IF HasSibling(ent)
-                                  THEN <<<<"DW_AT_sibling", IF U.enc.word = 4 THEN "DW_FORM_ref4" ELSE "DW_FORM_ref8",
-                                           [sib |-> L.after[e]]>>>> ELSE <<>>)
-                                 \o [j \in 1..Len(ent.attrs) |->
-                                       <<ent.attrs[j].name, Form(ent.attrs[j].val, U.enc),
-                                         Meaning(ent.attrs[j].val, U.enc, pos, u)>>]]]],
-             info |-> LET RECURSIVE AllBytes(_)
-                          AllBytes(u) == IF u > nu THEN <<>>
-                                         ELSE Flat(EmitHeader(D.units[u], u = 1, Ls[u].off) \o body[u].fs, be) \o AllBytes(u + 1)
-                      IN AllBytes(1),
-             str |-> LET RECURSIVE Cat(_)
-                         Cat(i) == IF i > Len(strtab) THEN <<>> ELSE strtab[i] \o <<0>> \o Cat(i + 1)
-                     IN Cat(1)]
+             units |-> [u \in 1..nu |-> ExpUnit(Reordered(D.units[u]), Ls[u], pos, u, starts[u])],
+             info |-> AllBytes(D, Ls, body, be, 1),
+             str |-> CatStrings(strtab, 1)]
 
 (* the stem lemma of the two-pass layout: predicted size = emitted length *)
 SizeIsEmitLen(val, enc, cx) == LET em == Emit(val, enc, cx) IN em.err = "" => FLen(em.fs) = Size(val, enc)
